@@ -420,6 +420,7 @@ class JordanCurve:
         nodes = tuple(sorted(nodes))
         segment = self.segments[index]
         new_segments = segment.split(nodes)
+        junctions = [piece.ctrlpoints[-1] for piece in new_segments[:-1]]
         for new_segment in new_segments:
             new_segment.clean()
         points = list(new_segments[0].ctrlpoints)
@@ -428,9 +429,12 @@ class JordanCurve:
         points = list(new_segments[-1].ctrlpoints)
         points[-1] = segment.ctrlpoints[-1]
         new_segments[-1].ctrlpoints = points
-        for i, node in enumerate(nodes):
+        for i, junction in enumerate(junctions):
+            points = list(new_segments[i].ctrlpoints)
+            points[-1] = junction
+            new_segments[i].ctrlpoints = points
             points = list(new_segments[i + 1].ctrlpoints)
-            points[0] = new_segments[i].ctrlpoints[-1]
+            points[0] = junction
             new_segments[i + 1].ctrlpoints = points
         total_segments = list(self.segments)
         total_segments.pop(index)
